@@ -4,11 +4,8 @@ import (
 	"bytes"
 	"fmt"
 	"strings"
-	"sync/atomic"
 	"testing"
-	"time"
 
-	"github.com/dtn7/dtn7-go/pkg/agent"
 	"github.com/dtn7/dtn7-go/pkg/bpv7"
 	vk "github.com/dtn7/dtn7-go/pkg/verifkit"
 	"pgregory.net/rapid"
@@ -66,35 +63,9 @@ func c02NodeBody(c *vk.Ctx, cs c02NodeCase) {
 		s.core.RegisterApplicationAgent(ping)
 	}
 	registerPing()
-	// quiesce waits until every pong the ping agent owes has been taken over by the node. (Closing the
-	// agent multiplexer while an agent is still handing over a bundle panics with "send on closed
-	// channel" - a shutdown race of dtn7 outside every listed property; the harness must not provoke it.)
-	quiesce := func() {
-		deadline := time.Now().Add(5 * time.Second)
-		for atomic.LoadInt32(&ping.out) < atomic.LoadInt32(&ping.in) && time.Now().Before(deadline) {
-			time.Sleep(100 * time.Microsecond)
-		}
-		want := int(atomic.LoadInt32(&ping.out))
-		for time.Now().Before(deadline) {
-			ids := map[string]bool{}
-			for _, x := range s.sendsSince(0) {
-				if x.Gen == s.gen && strings.HasPrefix(x.ID, pingEID.String()+"-") {
-					ids[x.ID] = true
-				}
-			}
-			if bis, err := s.core.store.QueryPending(); err == nil {
-				for _, bi := range bis {
-					if strings.HasPrefix(bi.BId.String(), pingEID.String()+"-") {
-						ids[bi.BId.String()] = true
-					}
-				}
-			}
-			if len(ids) >= want {
-				return
-			}
-			time.Sleep(200 * time.Microsecond)
-		}
-	}
+	// (closing the agent multiplexer while an agent is still handing over a bundle panics with "send on closed
+	// channel" - a shutdown race of dtn7 outside every listed property; the harness must not provoke it)
+	quiesce := func() { s.quiescePing(ping) }
 	names := []string{"p0", "rpt", "p2"}
 	eid := func(uri string) vk.EIDSpec { return eidSpec(uri) }
 	accepted := make([]bool, len(cs.Bundles))
@@ -281,43 +252,6 @@ func c02NodeBody(c *vk.Ctx, cs c02NodeCase) {
 	}
 	c.Class("algo=" + cs.Algo)
 }
-
-// vfPingProxy wraps the real PingAgent and counts what goes in and what has been handed back, so
-// that the harness can tell when the agent owes nothing any more.
-type vfPingProxy struct {
-	inner    *agent.PingAgent
-	receiver chan agent.Message
-	sender   chan agent.Message
-	in, out  int32
-}
-
-func newVfPingProxy(eid bpv7.EndpointID) *vfPingProxy {
-	p := &vfPingProxy{inner: agent.NewPing(eid), receiver: make(chan agent.Message), sender: make(chan agent.Message)}
-	go func() {
-		for m := range p.receiver {
-			if _, ok := m.(agent.BundleMessage); ok {
-				atomic.AddInt32(&p.in, 1)
-			}
-			p.inner.MessageReceiver() <- m
-			if _, ok := m.(agent.ShutdownMessage); ok {
-				return
-			}
-		}
-	}()
-	go func() {
-		defer close(p.sender)
-		for m := range p.inner.MessageSender() {
-			p.sender <- m
-			if _, ok := m.(agent.BundleMessage); ok {
-				atomic.AddInt32(&p.out, 1)
-			}
-		}
-	}()
-	return p
-}
-func (p *vfPingProxy) Endpoints() []bpv7.EndpointID         { return p.inner.Endpoints() }
-func (p *vfPingProxy) MessageReceiver() chan agent.Message { return p.receiver }
-func (p *vfPingProxy) MessageSender() chan agent.Message   { return p.sender }
 
 func vfTruncR(b []byte) []byte {
 	if len(b) > 160 {
